@@ -63,7 +63,8 @@ class DataDirectory(StorageFrontend):
         with open(self._run_meta_path(run_id), mode="w") as f:
             if "name" not in metadata:
                 metadata["name"] = run_id
-            f.write(json.dumps(metadata, sort_keys=True, indent=4, default=json_util.default))
+            # No sort_keys: sub_run_spec is ordered by run start (see define_run)
+            f.write(json.dumps(metadata, indent=4, default=json_util.default))
 
     def _scan_runs(self, store_fields):
         """Iterable of run document dictionaries.
